@@ -190,6 +190,8 @@ def check(F, rep, tier):
             rep.bad("R01.5", v["key"].split(":", 1)[1], v["msg"], v["site"])
         for r, d in sub.rules.items():
             for _ in range(d["instances"] - d["violations"]): rep.ok("R01.5", "stdout discipline (%s)" % r)
+    import tables as _t
+    _t.sanitizer_presets(F, rep, "R01.8", ("semver_str", "pep440_local_str", "uint", "key"))
     return core.finish(rep, explanation=EXPL, assumptions=ASSUME, trusted=TRUST)
 
 EXPL = ("Necessary conditions of 'every emitted version string is well-formed', decided on all paths of the rendering code: (R01.1) the sanitiser keeps only characters guarded by an ASCII-alphanumeric predicate; "
